@@ -1952,6 +1952,12 @@ func (db *DB) newSyncExecutor(ctx context.Context) (*syncExecutor, error) {
 	if verifEnabled {
 		verifTrace("exec.new", db.path)
 	}
+	// A sync that lands after Close (it passed an IsOpen check earlier) must not
+	// silently re-open the database and re-acquire the read lock.
+	if db.db == nil && !db.opened {
+		return nil, nil
+	}
+
 	if err := db.init(ctx); err != nil {
 		return nil, err
 	} else if db.db == nil {
